@@ -556,8 +556,6 @@ def loop_cases(ex: Exec, loop: ast.While) -> Dict[str, Any]:
                     if status not in ('return', 'break'):
                         ok_stop = False
                         problems.append(('stop', f'on {cname} the loop body ends by `{status}` instead of leaving the loop: the copy never finishes'))
-                    if sinks:
-                        raise AnalysisError(f'{label}: data is passed on after an empty read (not analysed)')
                 else:
                     good = [s for s in sinks if s.data is buf]
                     if not ok_pass:
@@ -632,6 +630,11 @@ def loop_cases(ex: Exec, loop: ast.While) -> Dict[str, Any]:
                 continue
             k = buf.k
             lo, hi = ex.decide('>=', k, ONE), ex.decide('<=', k, nv)
+            # a clause must hold at every point of the case: not uniformly true + a concrete point where it fails = refuted
+            if lo is None:
+                lo = False if refute(ex, '>=', k, ONE) is not None else None
+            if hi is None:
+                hi = False if refute(ex, '<=', k, nv) is not None else None
             if lo is None or hi is None:
                 raise Undecided(f'{label}: {where}: cannot order the read count {ex.inst(k)!r} against 1 and the remaining count {ex.inst(nv)!r}')
             if not hi:
@@ -645,6 +648,8 @@ def loop_cases(ex: Exec, loop: ast.While) -> Dict[str, Any]:
                 if not isinstance(st_.length, Poly):
                     raise AnalysisError(f'{label}: length of `{pf.nsrc(st_.node)}` is not an integer expression')
                 dl = ex.decide('>=', st_.length, k)
+                if dl is None and refute(ex, '>=', st_.length, k) is not None:
+                    dl = False
                 if dl is None:
                     raise Undecided(f'{label}: {where}: cannot order the stream length against the read count')
                 if not dl:
